@@ -349,6 +349,8 @@ float32_t igris_atof32(const char *str, char **pend)
 {
     if (!igris_isdigit(*str) && *str != '-')
     {
+        if (pend)
+            *pend = (char *)str;
         return 0;
     }
 
